@@ -317,17 +317,29 @@ mod repr {
         };
 
         // a = residue / lhs
-        let (shift, fast_div_top) = div::normalize(lhs_clone);
-        let overflow =
-            div::div_rem_unshifted_in_place(residue, lhs_clone, shift, fast_div_top, &mut memory);
-        let mut a = Buffer::from(&residue[lhs_len..]);
-        debug_assert_eq!(residue[0], 0); // this division is an exact division
-        if overflow > 0 {
-            a.push(overflow);
-        }
+        let a = if residue.len() < lhs_len {
+            // the residue is a multiple of lhs with fewer words than lhs, so it is zero
+            debug_assert!(residue.iter().all(|&w| w == 0));
+            Repr::zero()
+        } else {
+            let (shift, fast_div_top) = div::normalize(lhs_clone);
+            let overflow = div::div_rem_unshifted_in_place(
+                residue,
+                lhs_clone,
+                shift,
+                fast_div_top,
+                &mut memory,
+            );
+            let mut a = Buffer::from(&residue[lhs_len..]);
+            debug_assert_eq!(residue[0], 0); // this division is an exact division
+            if overflow > 0 {
+                a.push(overflow);
+            }
+            Repr::from_buffer(a)
+        };
 
         let g = Repr::from_buffer(g);
-        let a = Repr::from_buffer(a).with_sign(-b_sign);
+        let a = a.with_sign(-b_sign);
         let b = Repr::from_buffer(b).with_sign(b_sign);
         if swapped {
             (g, b, a)
